@@ -22,7 +22,7 @@ BUDGET_S = {'quick': 240, 'thorough': 1800}
 
 TYPES = ('response', 'stream', 'channel', 'fire_and_forget', 'metadata_push')
 SIGS = ('none', 'payload', 'cm', 'both', 'typed', 'cm-first', 'ann-cm-first', 'typed-then-raw', 'ann-payload', 'three')
-ROUTES = ('a', 'b', 'c', 'noroute', 'emptytags')
+ROUTES = ('a', 'b', 'c', 'ab', 'A', 'noroute', 'emptytags')  # 'ab' and 'A' are never registered: route names match exactly
 POSITIONS = ('first', 'after-generic', 'after-auth')
 AUTHS = ('no-verifier', 'missing', 'rejected', 'simple-ok', 'bearer-ok')
 
@@ -230,7 +230,7 @@ def direct_case(table, sig, rtype, route, position, auth, part):
         elif got[0] != rtype:
             rule, sub = 'exact-dispatch', 'wrong-type | %s->%s' % (rtype, got[0])
         else:
-            rule, sub = 'exact-dispatch', 'wrong-route | %s | %s->%s' % (rtype, route, got[1])
+            rule, sub = 'exact-dispatch', 'wrong-route | %s | %s->%s' % (rtype, route if route in ('a', 'b', 'c', 'ab', 'A') else 'none', got[1])
         part.violate('C19.' + rule, 'C19.%s | %s' % (rule, sub), 'request %s: handlers run %s, reference allows %s' % (ctx, who, exp), wit)
         return
     # arguments as annotated
